@@ -97,6 +97,11 @@ func (c *Chain[I, O]) compile(ctx context.Context, option *graphCompileOptions) 
 // only run once when compiling.
 func (c *Chain[I, O]) addEndIfNeeded() error {
 	if c.hasEnd {
+		// END was connected by an earlier Compile. If that Compile failed afterwards (the
+		// chain is not compiled), problems recorded since then must still be reported.
+		if c.err != nil && !c.gg.compiled {
+			return c.err
+		}
 		return nil
 	}
 
